@@ -3448,11 +3448,11 @@ namespace gch
         append_range (first, last, iterator_cat { });
       }
 
-#ifdef GCH_LIB_CONCEPTS
-      template <std::forward_iterator ForwardIt>
-#else
+      // Note: This overload is selected by the iterator category tag alone. Constraining it with
+      //       std::forward_iterator would send iterators like std::move_iterator (whose C++20
+      //       iterator_concept is only input_iterator_tag) to the single-pass overload, so that
+      //       the resulting capacity would depend on the language standard.
       template <typename ForwardIt>
-#endif
       GCH_CPP20_CONSTEXPR
       small_vector_base (ForwardIt first, ForwardIt last, std::forward_iterator_tag,
                          const alloc_ty& alloc)
